@@ -145,6 +145,12 @@ def design_variants():
         ok("linewriter: TLC %s the re-delivered line with ResetOnFlush = %s" % ("finds" if want else "does not find", reset), violated(out) == want)
 
 
+    for locked, want in (("FALSE", True), ("TRUE", False)):
+        cfg = "SPECIFICATION Spec\nCONSTANTS\n  Locked = %s\n  LinesPer = 2\nINVARIANT ExactlyOnce\nCHECK_DEADLOCK FALSE\n" % locked
+        rc, out, _ = vlib.tlc(os.path.join(S, "build"), "LineWriterPar", cfg="self.cfg", workers=4, timeout=300, files={"self.cfg": cfg})
+        ok("linewriter: TLC %s lost or doubled output under two writers with Locked = %s" % ("finds" if want else "does not find", locked), violated(out) == want)
+
+
 def main():
     t0 = time.time()
     try:
